@@ -1010,6 +1010,74 @@ variant("data-guards-switch",
 		c.writeResponse(502, EnhancedCode{5, 5, 1}, "DATA not allowed for BINARYMIME messages")
 		return
 	}"""))
+variant("caps-order-changed",
+  ("conn.go", """	caps := []string{
+		"PIPELINING",
+		"8BITMIME",
+		"ENHANCEDSTATUSCODES",
+		"CHUNKING",
+	}""", """	caps := []string{
+		"8BITMIME",
+		"PIPELINING",
+		"CHUNKING",
+		"ENHANCEDSTATUSCODES",
+	}"""))
+variant("limiter-index-loop",
+  ("lengthlimit_reader.go", """	for _, chr := range b[:n] {
+		if chr == '\\n' {""", """	for i := 0; i < n; i++ {
+		chr := b[i]
+		if chr == '\\n' {"""))
+variant("starttls-clears-swapped",
+  ("conn.go", """	c.helo = ""
+	c.didAuth = false
+	c.reset()
+}""", """	c.didAuth = false
+	c.helo = ""
+	c.reset()
+}"""))
+variant("close-flag-before-logout",
+  ("conn.go", """	if c.session != nil {
+		c.session.Logout()
+		c.session = nil
+	}
+
+	c.closed = true
+	return c.conn.Close()""", """	c.closed = true
+	if c.session != nil {
+		c.session.Logout()
+		c.session = nil
+	}
+
+	return c.conn.Close()"""))
+variant("auth-parts-ge-two",
+  ("conn.go", """	if len(parts) > 1 {
+		var err error
+		ir, err = decodeSASLResponse(parts[1])""", """	if len(parts) >= 2 {
+		var err error
+		ir, err = decodeSASLResponse(parts[1])"""))
+variant("bdat-size-local",
+  ("conn.go", """	chunk := io.LimitReader(c.text.R, int64(size))""", """	chunkSize := int64(size)
+	chunk := io.LimitReader(c.text.R, chunkSize)"""))
+variant("ehlo-cut",
+  ("client.go", """			args := strings.SplitN(line, " ", 2)
+			if len(args) > 1 {
+				ext[args[0]] = args[1]
+			} else {
+				ext[args[0]] = \"\"
+			}""", """			keyword, param, _ := strings.Cut(line, " ")
+			ext[keyword] = param"""))
+variant("validateline-indexany",
+  ("client.go", """	if strings.ContainsAny(line, "\\n\\r") {
+		return errors.New("smtp: a line must not contain CR or LF")
+	}""", """	if strings.IndexAny(line, "\\r\\n") >= 0 {
+		return errors.New("smtp: a line must not contain CR or LF")
+	}"""))
+variant("mail-no-grow",
+  ("client.go", """	// A high enough power of 2 than 510+14+26+11+9+9+39+500
+	sb.Grow(2048)
+""", ""))
+variant("hello-fallback-switch",
+  ("client.go", """		if errors.As(err, &smtpError) && (smtpError.Code == 500 || smtpError.Code == 502) {""", """		if errors.As(err, &smtpError) && (smtpError.Code == 502 || smtpError.Code == 500) {"""))
 if sys.argv[1:] == ['--export']:
     out = [{"id": "benign-" + n, "edits": [{"file": f, "old": o, "new": w} for f, o, w in V[n]]} for n in V]
     json.dump(out, open('/verif/liveness/benign.json', 'w'), indent=1)
